@@ -171,7 +171,20 @@ fn make_os(sc: &Scenario) -> SimOs {
             o.faults.insert(k, FaultSpec { errno, torn: 0 });
         }
     }
-    o.stdin = sc.stdin.clone();
+    // a line without a final newline can only be the last thing a stream delivers: whatever the
+    // script holds after it is replaced by end-of-file (a reader that asks again gets "")
+    let mut stdin = Vec::new();
+    for ev in &sc.stdin {
+        let last = matches!(ev, StdinEvent::Line(b) if b.last() != Some(&b'\n'));
+        stdin.push(ev.clone());
+        if last {
+            break;
+        }
+    }
+    while stdin.len() < sc.stdin.len() {
+        stdin.push(StdinEvent::Eof);
+    }
+    o.stdin = stdin;
     o.readonly = sc.readonly.iter().cloned().collect();
     o
 }
@@ -469,8 +482,24 @@ fn execute(sc: &Scenario, osim: SimOs, rep: &mut RunReport) {
                 Some(CallResult::Ok(r)) => Some(r.clone()),
                 _ => None,
             };
+            // a line may be assembled from several reads (a buffered reader asks again until it
+            // has seen a newline or end-of-file): the data of all reads that succeeded after the
+            // last failure of this invocation
+            let after_failure: String = entries
+                .iter()
+                .rev()
+                .take_while(|e| matches!(e.result, CallResult::Ok(_)))
+                .collect::<Vec<_>>()
+                .into_iter()
+                .rev()
+                .filter_map(|e| match &e.result {
+                    CallResult::Ok(r) => Some(r.as_str()),
+                    _ => None,
+                })
+                .collect();
             let ok = match (call.func.as_str(), last_ok) {
-                ("fs.file_read_to_string" | "io.cgetline", Some(r)) => success_ok(&value, &r),
+                ("io.cgetline", Some(r)) => success_ok(&value, &r) || success_ok(&value, &after_failure),
+                ("fs.file_read_to_string", Some(r)) => success_ok(&value, &r) || success_ok(&value, &after_failure),
                 ("fs.file_read_to_string" | "io.cgetline", None) => false,
                 (_, Some(_)) => value == Variable::Void,
                 (_, None) => false,
@@ -745,7 +774,7 @@ pub fn run_real(sc: &Scenario, extras: u8) -> RunReport {
             Ok(())
         })();
         if let Err(e) = setup {
-            let _ = std::env::set_current_dir("/");
+            crate::boot::enter_private_cwd();
             let _ = std::fs::remove_dir_all(&scratch);
             rep.harness_error = Some(format!("real scratch directory could not be prepared: {e}"));
             return rep;
@@ -791,7 +820,7 @@ pub fn run_real(sc: &Scenario, extras: u8) -> RunReport {
                 break;
             }
         }
-        let _ = std::env::set_current_dir("/");
+        crate::boot::enter_private_cwd();
         if extras == 0 && rep.violation.is_none() {
             let mut real_tree = BTreeMap::new();
             walk_real(&scratch, "", &mut real_tree);
@@ -804,7 +833,7 @@ pub fn run_real(sc: &Scenario, extras: u8) -> RunReport {
         rep
     });
     r.unwrap_or_else(|p| {
-        let _ = std::env::set_current_dir("/");
+        crate::boot::enter_private_cwd();
         RunReport { harness_error: Some(format!("run thread panicked: {p}")), ..Default::default() }
     })
 }
